@@ -433,7 +433,11 @@ def evidence(pid, pc, tier, seed, t0, mine, discharged, functions, results, smt_
     for r in results:
         for k, v in r.get('report', {}).get('rules_applied', {}).items():
             rules[k] = rules.get(k, 0) + v
-    level = 'proof' if (len(discharged) == len(mine) and mine and not undecided and not known_hit and pc.get('category', 'proof') == 'proof') else 'other'
+    # 'proof' describes what the run did: every listed obligation discharged by Verus on this tree. A listed known
+    # finding that is keyed by an obligation label means that obligation failed (then this is not 'proof'); one keyed
+    # by a finder class lies outside the obligations and is reported next to the level, not instead of it.
+    label_known = [k for _f, k in known_hit if k.get('obligation')]
+    level = 'proof' if (len(discharged) == len(mine) and mine and not undecided and not label_known and pc.get('category', 'proof') == 'proof') else 'other'
     slow = {k: v for k, v in funcs_time.items() if v.get('ms', 0) > 20000}
     ev = dict(
         property_id=pid, tier=tier, seed=seed, level=level,
